@@ -106,28 +106,30 @@ def _model(ctx, d, q):
 
 
 def _replay(ctx, b, d, q):
-    # (name, Trees, Order, Conts, concretisation, keep)
-    hs = [('linear', 'OneLin', 'Seq123', 'ContLin', 1, None),
-          ('reorg', 'OneReorg', 'Seq12345', 'ContReorg', 1, None),
-          ('orphan', 'OneReorg', 'Seq45123', 'ContReorg', 1, 3 if q else None)]
+    # (name, Trees, Order, Conts, concretisation, keep every k-th (None: all), crashes)
+    hs = [('linear', 'OneLin', 'Seq123', 'ContLin', 1, None, 1),
+          ('reorg', 'OneReorg', 'Seq12345', 'ContReorg', 1, None, 1),
+          ('orphan', 'OneReorg', 'Seq45123', 'ContReorg', 1, 3, 1)]
     if not q:
-        hs = [('linear', 'OneLin', 'Seq123', 'ContLinT', 1, None),
-              ('reorg', 'OneReorg', 'Seq12345', 'ContReorgT', 1, None),
-              ('reorg-b', 'OneReorg', 'Seq12345', 'ContReorg', 2 + ctx.seed % 5, None),
-              ('orphan', 'OneReorg', 'Seq45123', 'ContReorgT', 1, None),
-              ('deep', 'OneDeep', 'Seq8', 'ContDeep', 1, None),
-              ('fork', 'OneFork', 'Seq123', 'ContLin', 1, None)]
+        hs = [('linear', 'OneLin', 'Seq123', 'ContLinT', 1, None, 1),
+              ('reorg', 'OneReorg', 'Seq12345', 'ContReorgT', 1, None, 1),
+              ('reorg-b', 'OneReorg', 'Seq12345', 'ContReorg', 2 + ctx.seed % 5, None, 1),
+              ('orphan', 'OneReorg', 'Seq45123', 'ContReorgT', 1, None, 1),
+              ('deep', 'OneDeep', 'Seq8', 'ContDeep', 1, None, 1),
+              ('fork', 'OneFork', 'Seq123', 'ContLin', 1, None, 1),
+              ('linear2', 'OneLin', 'Seq123', 'ContLin', 1, 3, 2),
+              ('reorg2', 'OneReorg', 'Seq12345', 'ContReorg', 1, 11, 2)]
     allb = []
     per = {}
-    for name, trees, order, conts, conc, keep in hs:
-        cfg = _cfg(ctx, d, 'Crash_All.cfg', 'Crash_All_%s.cfg' % name, Trees=trees, Order=order, Conts=conts)
+    for name, trees, order, conts, conc, keep, crashes in hs:
+        cfg = _cfg(ctx, d, 'Crash_All.cfg', 'Crash_All_%s.cfg' % name, Trees=trees, Order=order, Conts=conts, MaxCrash=str(crashes))
         bs = ctx.tlc_genall('Crash_All', cfg, stage=d, timeout=3600, count=True)
         per[name] = len(bs)
         for i, x in enumerate(bs):
             x['id'] = '%s-%s' % (name, x['id'])
             x['meta'] = dict(conc=conc, history=name)
         if keep:
-            bs = [x for i, x in enumerate(bs) if i % keep == 0 or i == len(bs) - 1]
+            bs = [x for i, x in enumerate(bs) if (i + ctx.seed) % keep == 0 or i == len(bs) - 1]
         allb += bs
     ctx.extra['crash_behaviours_per_history'] = per
     ctx.extra['crash_experiments_replayed'] = len(allb)
